@@ -233,6 +233,13 @@ def run_one(ch, cfg):
         viol.append(("reply/missing-success:%s" % variant,
                      "fault-free run answered %r (%r)" % (d["rep"], d["exc"])))
         return _res(viol, None, (variant, "dry"), False, {}, {"variant": variant})
+    if not d["kinds"]:
+        # success although the device was never asked (every variant is a device-backed command)
+        viol.append(("reply/success-without-device:%s" % variant,
+                     "fault-free %s%s answered %r without a single exchange with the device" % (
+                         variant, " (after an earlier %s request)" % earlier_for(variant, pseed)
+                         if earlier_for(variant, pseed) else "", d["rep"])))
+        return _res(viol, None, (variant, "dry"), False, {}, {"variant": variant})
     kind = d["kinds"][ch.slot(len(d["kinds"]), "step-kind")]
     # enumerated cases address the first exchange of the kind (draw value 0); seeded ones any of them
     occ = [i for i, st_ in enumerate(d["steps"]) if st_ == kind]
